@@ -214,8 +214,12 @@ def eval_disc_1d(g, bl, br, parL, parR, cells, res=None):
     m = space.mesh_spec(("uni", len(cells), 1.0, 0.0))
     prim = np.array(cells, float).T
     q = ph.prim2cons_1d(prim[0], prim[1], prim[2], g)
-    disc = space.modeldisc.fvm(model, m, space.xnum.extrapol1(), numflux="hllc",
-                               bcL=dict(parL, type=bl), bcR=dict(parR, type=br))
+    if bl == br and parL == parR:
+        shared = dict(parL, type=bl)        # one dictionary object for both sides, as a user with identical conditions would write it
+        disc = space.modeldisc.fvm(model, m, space.xnum.extrapol1(), numflux="hllc", bcL=shared, bcR=shared)
+    else:
+        disc = space.modeldisc.fvm(model, m, space.xnum.extrapol1(), numflux="hllc",
+                                   bcL=dict(parL, type=bl), bcR=dict(parR, type=br))
     f = space.field.fdata(model, m, q)
     viols = []
     with np.errstate(all="ignore"):
@@ -241,7 +245,7 @@ def shard_disc_1d(arg):
     pars = [{"ptot": 3.0, "rttot": 1.5, "p": 0.8}, {"ptot": 11.0, "rttot": 0.7, "p": 1.9}]
     names = BC1D
     for bl, br in itertools.product(names, repeat=2):
-        for parL, parR in itertools.permutations(pars, 2):
+        for parL, parR in list(itertools.permutations(pars, 2)) + [(pars[0], pars[0])]:
             for cells in itertools.product(st, repeat=2):
                 res.nontrivial += 1
                 for s, w, c in eval_disc_1d(g, bl, br, parL, parR, [list(x) for x in cells], res):
@@ -322,9 +326,13 @@ def eval_direct_2d(g, name, tag, d, par, res=None):
     viols = []
     ref_n = np.array(OUTWARD[tag])[:, None] * np.ones((1, k))
     out = [("mesh-normal-is-outward-unit", np.where(np.all(n == ref_n, axis=0), 0.0, np.inf), np.ones(k, bool))]
+    din = [d[0].copy(), d[1].copy(), d[2].copy()]
+    pin, nin = dict(par), n.copy()
     with np.errstate(all="ignore"):
-        W = model.namedBC(name, n, [d[0].copy(), d[1].copy(), d[2].copy()], dict(par))
+        W = model.namedBC(name, nin, din, pin)
     out += judge_2d(g, name, ref_n, d, par, W)
+    pure = all(np.array_equal(a, b) for a, b in zip(din, d)) and pin == par and np.array_equal(nin, n)
+    out.append(("does-not-modify-its-input", np.where(pure, 0.0, np.inf) * np.ones(k), np.ones(k, bool)))
     if name == "sym":
         axis = 0 if tag in ("left", "right") else 1
         dirn = np.zeros((2, k))
